@@ -175,6 +175,33 @@ CHECKS["C20"] = dict(
     design_ref="DESIGN.md section 4, C20",
     note="Trusted: AM; histories accumulate inside one child; layouts and hash seeds are finite menus (stated); emitted C text is not compared (numbering legitimately varies).")
 
+CHECKS["C11"] = dict(
+    category="exploration",
+    technique="t-wise exhaustive covering array over 15 code-generation factors x programs covering every output type / action / node kind; each emitted pair compiled by gcc (c99, c11), clang and g++ (header) with -Wall -Werror, plus a declared-API check",
+    text="Corpus, feature, buffer-operation, yield, EOF-universe, hand-written and universe programs x every row of a covering array (all pairs; thorough: all triples) over level, EOF, yield, indirect pointer, strict done, zero-length, "
+         "storage x5, u8, hook placement, user pointer, packed enums, pragma once, C++ guard, unsafe indexing, range collapsing x4: header and source must compile without warnings under gcc -std=c99 / -std=c11 and clang "
+         "(-Wall -Werror -Wno-unused-label), the header alone (included twice) must be valid C and C++, and exactly the documented API must be declared (start, feed, end iff EOF, free iff dynamic memory, hooks as prototypes xor members, "
+         "one enumerator per result code, pointer type of feed). Exploration: t-wise, not the full option product.",
+    design_ref="DESIGN.md section 4, C11",
+    note="Trusted: gcc 12 / clang 14 / g++ 12 as the judges of validity.")
+CHECKS["C14"] = dict(
+    category="exploration",
+    technique="bounded-exhaustive expression trees (every operator x every atom pair; every operator pair in both nestings, printed with minimal parentheses) x contexts x boundary valuations, evaluated by the real generated C and by an independent typed big-integer C evaluator",
+    text="~10^4 distinct well-typed expressions over all 19 operators and atoms of every width/signedness, bool, string length, in/out-of-range indexed bytes and $last, each used in assignments to every int width/sign and bool, "
+         "character appends, action-only ifs and ifs with consuming bodies (condition points), are packed ~150 per generated parser, the variables are set directly in the state struct to each of a menu of boundary valuations, and every "
+         "stored result / branch taken is compared with nv/cexpr.py (integer promotion, usual arithmetic conversions, truncation, wrap, narrowing); valuations where C is undefined are skipped, trapping divisions are isolated.",
+    design_ref="DESIGN.md section 4, C14",
+    note="Trusted: nv/cexpr.py as C arithmetic on x86-64/gcc; depth <= 2; boundary valuations rather than all values.")
+CHECKS["C15"] = dict(
+    category="exploration",
+    technique="exhaustive over single bytes: 256 values x every legal spelling x every literal context, all 256 candidate bytes offered at the literal's position on the compiled machine; store/value contexts through an ASan build; all ordered pairs over an adversarial byte set",
+    text="For every byte 0..255 and every spelling (raw, \\xHH either case, named escape, hex pair, regex literal / escaped metacharacter / class escape / set member / range endpoint, binary-regex byte / set / range / inverted set) "
+         "in string, case-insensitive, binary-string, text-regex and binary-regex matches the compiled machine must accept exactly the spelled byte (either case of ASCII letters for the insensitive form) among all 256 candidates; "
+         "string assignments, string and binary defaults, char constants and dec/0x/0b signed integer literals (statement, math, default) are observed through the C; all ordered pairs over 24 adversarial bytes as two-byte "
+         "matches, assignments and defaults (fail at exactly the first differing byte, stored bytes and length).",
+    design_ref="DESIGN.md section 4, C15",
+    note="Trusted: AM for the match contexts (bound by C06); raw non-ASCII source characters are not used; multi-byte literals only as adversarial pairs.")
+
 NOT_YET = {
 }
 
